@@ -4,8 +4,9 @@ From Verif Require Import Bits CPrims CPrimsThm CppPrims CppPrimsThm.
 Open Scope N_scope.
 
 (* ---- padAndMoveToAlignment ---- *)
-Theorem pad_and_move_spec s n :
-  span_ok s -> bytes_ok (sp_data s) -> 1 <= n <= 255 ->
+(* every alignment the size_t parameter can carry (no truncation since /repo fcc36ca) *)
+Theorem pad_and_move_every_alignment s n :
+  span_ok s -> bytes_ok (sp_data s) -> 1 <= n < two64 ->
   let pad := (n - sp_off s mod n) mod n in
   (sp_bits s < pad -> padAndMoveToAlignment s n = Some (inr TooSmall)) /\
   (pad <= sp_bits s ->
@@ -14,10 +15,8 @@ Theorem pad_and_move_spec s n :
      forall p, bit r p = if (sp_off s <=? p) && (p <? sp_off s + pad) then false else bit (sp_data s) p).
 Proof.
   intros Hs Hok Hn pad. pose proof (sp_bits_spec s Hs) as Hb. pose proof Hs as (S1 & S2 & S3).
-  assert (T64 : two64 = 18446744073709551616) by reflexivity.
   unfold padAndMoveToAlignment. destruct (N.eqb_spec n 0); [lia|].
   assert (Hm : sp_off s mod n < n) by (apply N.mod_lt; lia).
-  rewrite cast_u_small by (change (2 ^ 8) with 256; lia).
   destruct (N.eqb_spec (n - sp_off s mod n) n) as [E|E]; cbn [negb].
   - assert (Hp0 : pad = 0) by (subst pad; rewrite E; apply N.mod_same; lia).
     rewrite Hp0. split; [lia|]. intros _. exists (sp_data s). rewrite N.add_0_r.
@@ -34,6 +33,20 @@ Proof.
       apply N.mod_mul. lia.
 Qed.
 
+(* the statement for uint8_t alignments: kept because Codec/InstancesCpp.v and CppComposeThm.v cite it *)
+Theorem pad_and_move_spec s n :
+  span_ok s -> bytes_ok (sp_data s) -> 1 <= n <= 255 ->
+  let pad := (n - sp_off s mod n) mod n in
+  (sp_bits s < pad -> padAndMoveToAlignment s n = Some (inr TooSmall)) /\
+  (pad <= sp_bits s ->
+   exists r, padAndMoveToAlignment s n = Some (inl (r, sp_off s + pad)) /\ (sp_off s + pad) mod n = 0 /\
+     List.length r = List.length (sp_data s) /\
+     forall p, bit r p = if (sp_off s <=? p) && (p <? sp_off s + pad) then false else bit (sp_data s) p).
+Proof.
+  intros Hs Hok Hn. apply pad_and_move_every_alignment; try assumption.
+  assert (T64 : two64 = 18446744073709551616) by reflexivity. lia.
+Qed.
+
 (* ---- subspans: pointer/offset arithmetic keeps the absolute bit position and stays inside the parent ---- *)
 Lemma bit_skipn d k p : bit (skipn (N.to_nat k) d) p = bit d (8 * k + p).
 Proof.
@@ -43,6 +56,41 @@ Qed.
 
 
 
+(* every value of the two size_t arguments (wrapped sums are rejected since /repo fcc36ca): success iff, in natural numbers, the
+   byte position is inside the buffer and the remaining bytes hold the requested bits *)
+Theorem subspan2_every_offset s bits_at size_bits :
+  span_ok s -> bits_at < two64 -> size_bits < two64 ->
+  let k := (sp_off s + bits_at) / 8 in
+  let o := (sp_off s + bits_at) mod 8 in
+  if (sp_size s <? k) || ((sp_size s - k) * 8 <? o + size_bits)
+  then subspan2 s bits_at size_bits = inr TooSmall
+  else subspan2 s bits_at size_bits = inl (mkspan (skipn (N.to_nat k) (sp_data s)) ((o + size_bits) / 8) o) /\
+       k + (o + size_bits) / 8 <= sp_size s.
+Proof.
+  intros (S1 & S2 & S3) Hba Hsb k o. unfold subspan2.
+  assert (T64 : two64 = 18446744073709551616) by reflexivity.
+  assert (Ho : o < 8) by (subst o; apply N.mod_lt; discriminate).
+  destruct (N.lt_ge_cases (sp_off s + bits_at) two64) as [Hw|Hw].
+  - rewrite (w64_small (sp_off s + bits_at)) by exact Hw. fold k o.
+    replace (sp_off s + bits_at <? bits_at) with false by (symmetry; apply N.ltb_ge; lia).
+    destruct (N.ltb_spec (sp_size s) k); cbn [orb]; [reflexivity|].
+    rewrite (w64_small ((sp_size s - k) * 8)) by lia.
+    destruct (N.ltb_spec ((sp_size s - k) * 8) (o + size_bits)).
+    + destruct (N.ltb_spec ((sp_size s - k) * 8) size_bits); cbn [orb]; [reflexivity|].
+      replace ((sp_size s - k) * 8 - size_bits <? o) with true by (symmetry; apply N.ltb_lt; lia). reflexivity.
+    + replace ((sp_size s - k) * 8 <? size_bits) with false by (symmetry; apply N.ltb_ge; lia).
+      replace ((sp_size s - k) * 8 - size_bits <? o) with false by (symmetry; apply N.ltb_ge; lia). cbn [orb].
+      rewrite (w64_small (o + size_bits)) by lia. split; [reflexivity|]. lia.
+  - assert (Hk : sp_size s < k).
+    { subst k. apply N.lt_le_trans with (two64 / 8); [rewrite T64; change (18446744073709551616 / 8) with 2305843009213693952; lia|].
+      apply N.div_le_mono; [discriminate|exact Hw]. }
+    replace (sp_size s <? k) with true by (symmetry; apply N.ltb_lt; exact Hk). cbn [orb].
+    assert (Hwrap : w64 (sp_off s + bits_at) = sp_off s + bits_at - two64).
+    { unfold w64. symmetry. apply (N.mod_unique _ _ 1); lia. }
+    rewrite Hwrap. replace (sp_off s + bits_at - two64 <? bits_at) with true by (symmetry; apply N.ltb_lt; lia). reflexivity.
+Qed.
+
+(* the statement on the no-wrap domain: kept because Codec/CppWalkerInst.v cites it *)
 Theorem subspan2_spec s bits_at size_bits :
   span_ok s -> sp_off s + bits_at < two64 -> size_bits + 8 < two64 ->
   let k := (sp_off s + bits_at) / 8 in
@@ -51,16 +99,7 @@ Theorem subspan2_spec s bits_at size_bits :
   then subspan2 s bits_at size_bits = inr TooSmall
   else subspan2 s bits_at size_bits = inl (mkspan (skipn (N.to_nat k) (sp_data s)) ((o + size_bits) / 8) o) /\
        k + (o + size_bits) / 8 <= sp_size s.
-Proof.
-  intros (S1 & S2 & S3) Hw Hsb k o. unfold subspan2.
-  assert (T64 : two64 = 18446744073709551616) by reflexivity.
-  rewrite (w64_small (sp_off s + bits_at)) by exact Hw. fold k o.
-  assert (Ho : o < 8) by (subst o; apply N.mod_lt; discriminate).
-  destruct (N.ltb_spec (sp_size s) k); cbn [orb]; [reflexivity|].
-  rewrite (w64_small (o + size_bits)) by lia. rewrite (w64_small ((sp_size s - k) * 8)) by lia.
-  destruct (N.ltb_spec ((sp_size s - k) * 8) (o + size_bits)); [reflexivity|].
-  split; [reflexivity|]. lia.
-Qed.
+Proof. intros Hs Hw Hsb. apply subspan2_every_offset; [exact Hs|lia|lia]. Qed.
 
 (* ---- the set/get members compute what the C functions compute ---- *)
 Lemma sp_saturate_eq s len : sp_saturate s len = saturate_fragment (sp_size s) (sp_off s) len.
@@ -195,6 +234,33 @@ Proof.
   intros Hs Hn pad. apply span_okb_ok in Hs as [Hs Hok]. apply andb_prop in Hn as [Hn1 Hn2].
   apply N.leb_le in Hn1, Hn2. destruct (pad_and_move_spec s n Hs Hok (conj Hn1 Hn2)) as [Ha Hb].
   fold pad in Ha, Hb. destruct (N.ltb_spec (sp_bits s) pad); [apply Ha; assumption|apply Hb; assumption].
+Qed.
+
+Theorem pad_and_move_every_alignment_b s n :
+  span_okb s = true -> (1 <=? n) && (n <? two64) = true ->
+  let pad := (n - sp_off s mod n) mod n in
+  if sp_bits s <? pad
+  then padAndMoveToAlignment s n = Some (inr TooSmall)
+  else exists r, padAndMoveToAlignment s n = Some (inl (r, sp_off s + pad)) /\ (sp_off s + pad) mod n = 0 /\
+         List.length r = List.length (sp_data s) /\
+         forall p, bit r p = if (sp_off s <=? p) && (p <? sp_off s + pad) then false else bit (sp_data s) p.
+Proof.
+  intros Hs Hn pad. apply span_okb_ok in Hs as [Hs Hok]. apply andb_prop in Hn as [Hn1 Hn2].
+  apply N.leb_le in Hn1. apply N.ltb_lt in Hn2. destruct (pad_and_move_every_alignment s n Hs Hok (conj Hn1 Hn2)) as [Ha Hb].
+  fold pad in Ha, Hb. destruct (N.ltb_spec (sp_bits s) pad); [apply Ha; assumption|apply Hb; assumption].
+Qed.
+
+Theorem subspan2_every_offset_b s bits_at size_bits :
+  span_okb s = true -> (bits_at <? two64) && (size_bits <? two64) = true ->
+  let k := (sp_off s + bits_at) / 8 in
+  let o := (sp_off s + bits_at) mod 8 in
+  if (sp_size s <? k) || ((sp_size s - k) * 8 <? o + size_bits)
+  then subspan2 s bits_at size_bits = inr TooSmall
+  else subspan2 s bits_at size_bits = inl (mkspan (skipn (N.to_nat k) (sp_data s)) ((o + size_bits) / 8) o) /\
+       k + (o + size_bits) / 8 <= sp_size s.
+Proof.
+  intros Hs Hn. apply span_okb_ok in Hs as [Hs _]. apply andb_prop in Hn as [H1 H2]. apply N.ltb_lt in H1, H2.
+  exact (subspan2_every_offset s bits_at size_bits Hs H1 H2).
 Qed.
 
 Theorem cpp_members_are_c_b s :
